@@ -187,6 +187,97 @@ def replay(c):
     return False, "native output agrees with the documentation (%s)" % text
 
 
+ORDER_MODULE = HEADER + "struct Probe:\n  0 [+1]  UInt  fa\n  1 [+1]  UInt  fb\n  2 [+1]  UInt  fc\n"
+
+
+def run_order():
+    """Clause "fields are emitted after the fields they depend on": the generated method writes fields in the
+    order of `fields_in_dependency_order` (that this order respects dependencies is C15).  The order is made an
+    arbitrary permutation of the structure's fields (harness-level finite choice, every permutation is a path)
+    and the real header generator runs on it."""
+    import re
+    out = {"paths": 0, "mismatches": [], "errors": []}
+
+    def body(c):
+        parsed = glue.only_parse_emboss_file("probe.emb", _reader(ORDER_MODULE))
+        ir, errors = glue.process_ir(parsed.ir, None)
+        if errors:
+            raise RuntimeError("probe module rejected: %r" % (errors,))
+        st = [t for t in ir.module[0].type if t.name.name.text == "Probe"][0].structure
+        n = len(st.field)
+        rest = list(range(n))
+        perm = []
+        while rest:
+            perm.append(rest.pop(c.choose(len(rest), "perm")))
+        del st.fields_in_dependency_order[:]
+        st.fields_in_dependency_order.extend(perm)
+        header, herr = header_generator.generate_header(ir, header_generator.Config(include_enum_traits=True))
+        if herr:
+            raise RuntimeError("header generation failed: %r" % (herr,))
+        names = [st.field[i].name.name.text for i in perm]
+        return names, header
+
+    def on_path(res):
+        out["paths"] += 1
+        if res.kind == "raise":
+            out["errors"].append(repr(res.exc)[:200])
+            return
+        names, header = res.value
+        written = re.findall(r'->Write\("(?:# )?([a-z_$0-9]+): "\)', header)
+        want = [nm for nm in names if nm in written]
+        if written != want:
+            out["mismatches"].append({"dependency_order": names, "written": written})
+
+    stats, complete = pysym.explore(body, on_path, max_paths=6000)
+    out["complete"] = complete
+    return out
+
+
+CHAIN_MODULE = HEADER + ("struct Chain:\n  off_c [+1]  UInt  fc\n  off_b [+1]  UInt  off_c\n"
+                         "  0     [+1]  UInt  off_b\n")
+
+CHAIN_CC = r"""
+#include <cstdio>
+#include <cstring>
+#include <string>
+#include "chain.emb.h"
+int main() {
+  unsigned char buf[8] = {1, 2, 7, 0, 0, 0, 0, 0};
+  unsigned char back[8] = {0, 0, 0, 0, 0, 0, 0, 0};
+  auto view = ::verif::c06::MakeChainView(buf, sizeof buf);
+  ::std::string text = ::emboss::WriteToString(view);
+  auto w = ::verif::c06::MakeChainView(back, sizeof back);
+  bool ok = ::emboss::UpdateFromText(w, text);
+  bool same = ok && w.Ok() && w.fc().Read() == 7 && w.off_c().Read() == 2 && w.off_b().Read() == 1;
+  printf("same %d ok %d text %s\n", same ? 1 : 0, ok ? 1 : 0, text.c_str());
+  return 0;
+}
+"""
+
+
+def replay_order(_c=None):
+    """A structure whose fields are declared in the reverse of their dependency order: WriteToString, then
+    UpdateFromText into a zeroed buffer, natively.  Reproduces if the text does not read back."""
+    d = common.scratch_dir("verif-r6o-")
+    with open(os.path.join(d, "chain.emb"), "w") as f:
+        f.write(CHAIN_MODULE)
+    try:
+        front.compile_module("chain.emb", [d], d)
+    except front.FrontEndError as e:
+        return False, "chain module rejected by the front end: %s" % str(e)[:200]
+    src = os.path.join(d, "main.cc")
+    with open(src, "w") as f:
+        f.write(CHAIN_CC)
+    exe = os.path.join(d, "replay")
+    cxx.compile_native(src, exe, includes=[d])
+    rc, out, err = cxx.run_native(exe, "")
+    if rc != 0:
+        return True, "round trip of the chain structure crashed: %s" % (err or out)[-300:]
+    if out.startswith("same 1"):
+        return False, "chain structure reads back (%s)" % out.strip()[:150]
+    return True, "WriteToString output of a structure declared in reverse dependency order does not read back: %s" % out.strip()[:200]
+
+
 def run(rep):
     """Adds the Skip/Emit layer to the C06 report; returns coverage numbers."""
     paths = 0
@@ -214,5 +305,20 @@ def run(rep):
                 continue
             rep.violation({"kind": "text_output", "field_kind": kind, "attr": r["attr"]}, observed,
                           {"kind": "text_output", "field_kind": kind, "attr": r["attr"], "expected": r["expected"]})
+    order = run_order()
+    for e in order["errors"][:3]:
+        rep.harness_error("emission order: %s" % e)
+    if not order["complete"]:
+        rep.inconclusive_item("emission order: permutation enumeration incomplete")
+    for m in order["mismatches"][:1]:
+        # generator-level observation; it is a violation only if a structure with real dependencies does not read back
+        ok, observed = replay_order()
+        replayed += 1
+        what = "text output writes fields in order %s although fields_in_dependency_order is %s" % (m["written"], m["dependency_order"])
+        if ok:
+            rep.violation({"kind": "emission_order"}, what + "; " + observed, {"kind": "emission_order", **m})
+        else:
+            rep.inconclusive_item(what + " -- but " + observed)
     return {"text_output_field_kinds": list(KINDS), "text_output_paths": paths, "text_output_cases": cases,
-            "text_output_replayed": replayed}
+            "text_output_replayed": replayed, "emission_order_permutations": order["paths"],
+            "emission_order_mismatches": len(order["mismatches"])}
